@@ -298,6 +298,64 @@ func main() {
 				}
 			}})
 	}
+	// fabricated triples at every height: real hashing at heights / indices no generated key can reach
+	idxOf := func(h, k int) uint32 {
+		n := uint64(1) << uint(h)
+		c := []uint64{0, 1, 2, 255, 256, 257, 65535, 65536, 65537, 1<<24 - 1, 1 << 24, 1<<24 + 12345, n/2 - 1, n / 2, n - 2, n - 1, 0x00FF00FF, 0x01020304, 0xFF00, 0x10001}
+		return uint32(c[k] % n)
+	}
+	ck.Domains = append(ck.Domains, &drv.Domain{Name: "fabricated-all-heights", Size: 14 * 3 * 20 * 2, Chunk: 4,
+		Desc: "specification-valid triples FABRICATED by the reference (one real WOTS leaf + arbitrary authentication path, root by climbing) for every height 4..30 x 3 hash functions x 20 leaf indices (0, 1, 255..257, 65535..65537, 2^24-1.., 2^h/2, 2^h-1, byte patterns): the library must accept them, and must reject them with one bit of the index / auth path / message changed",
+		Run: func(c *drv.Ctx, lo, hi int64) {
+			for i := lo; i < hi; i++ {
+				c.At(i)
+				k := int(i)
+				dev := k % 2
+				k /= 2
+				ik := k % 20
+				k /= 20
+				hf := k % 3
+				h := 4 + 2*(k/3)
+				idx := idxOf(h, ik)
+				msg := []byte(fmt.Sprintf("fabricated h=%d idx=%d", h, idx))
+				mat := seeds.Bytes(96+32*30, fmt.Sprint("fab", h, hf, ik), c.Seed)
+				sig, pkb := refxmss.Fabricate(refxmss.Hash(hf), h, idx, msg, mat[0:32], mat[32:64], mat[64:96], func(t int) []byte { return mat[96+32*t : 128+32*t] })
+				var pk [67]byte
+				copy(pk[:], pkb)
+				what := fmt.Sprintf("fabricated h=%d hash=%d idx=%d", h, hf, idx)
+				if dev == 0 {
+					if !refxmss.Verify(msg, sig, pkb, 16) {
+						c.Fail(i, "fabricated:reference-rejects-its-own-construction(infrastructure)", map[string]any{"case": what})
+						continue
+					}
+					compare(c, i, "fabricated", what, msg, sig, pk, false)
+					c.Nontrivial(1)
+					if ik == 7 && hf == 1 {
+						c.Sample(map[string]any{"case": what, "signature_len": len(sig)})
+					}
+					continue
+				}
+				// one deviation, rotating: index bit, auth bit, message bit, height nibble
+				s2 := append([]byte(nil), sig...)
+				m2 := msg
+				switch (ik + hf + h/2) % 4 {
+				case 0:
+					s2[ik%4] ^= 1 << uint(ik%8)
+					what += " index bit flipped"
+				case 1:
+					s2[len(s2)-1-ik] ^= 0x10
+					what += " auth bit flipped"
+				case 2:
+					m2 = append([]byte(nil), msg...)
+					m2[ik%len(m2)] ^= 2
+					what += " message bit flipped"
+				case 3:
+					pk[1] ^= 1
+					what += " height nibble changed"
+				}
+				compare(c, i, "fabricated-deviation", what, m2, s2, pk, true)
+			}
+		}})
 	// descriptor sweep
 	ck.Domains = append(ck.Domains, &drv.Domain{Name: "desc-sweep", Size: 65536 * 2 * 3, Chunk: 256, Desc: "pk descriptor (byte0,byte1) over all 65536 values x {honest root, all-zero root + zero seed} x base hash function; signature length matched to the declared height",
 		Run: func(c *drv.Ctx, lo, hi int64) {
